@@ -9,10 +9,18 @@ def jobs(tier):
              require_tags={'end': 1, 'accept': 1}),
         dict(name='fixed-table', harness=H, entry='main_c08', defines=dict(NN=4, NE=4, NS=1, NM=2, FIXED_TABLE=1), timeout=900,
              require_tags={'end': 1, 'accept': 1}),
+        dict(name='afs-fixed-table', harness='c08_afs.c', entry='main_c08', defines=dict(NN=4, NE=4, NS=1, NM=2, FIXED_TABLE=1), timeout=900,
+             require_tags={'end': 1, 'accept': 1, 'counted-allele': 1}),
+        dict(name='afs-n3e2', harness='c08_afs.c', entry='main_c08', defines=dict(NN=3, NE=2, NS=0, NM=0, TP_HI=0, SP_LO=1, SP_HI=2), timeout=900,
+             require_tags={'end': 1, 'accept': 1}),
     ]
     if tier == 'quick':
         return q
     return q + [
+        dict(name='afs-n3e2-sites', harness='c08_afs.c', entry='main_c08', defines=dict(NN=3, NE=2, NS=1, NM=1, TP_HI=0, SP_LO=1, SP_HI=2), timeout=3000,
+             allow_incomplete=True, require_tags={'end': 1, 'accept': 1, 'counted-allele': 1}),
+        dict(name='afs-n4e3', harness='c08_afs.c', entry='main_c08', defines=dict(NN=4, NE=3, NS=0, NM=0, TP_HI=0, SP_LO=1, SP_HI=2), timeout=3000,
+             allow_incomplete=True, require_tags={'end': 1, 'accept': 1}),
         dict(name='n3e2-sites', harness=H, entry='main_c08', defines=dict(NN=3, NE=2, NS=1, NM=1, TP_HI=0, SP_HI=0), timeout=3000,
              allow_incomplete=True, require_tags={'end': 1, 'accept': 1}),
         dict(name='n4e3', harness=H, entry='main_c08', defines=dict(NN=4, NE=3, NS=0, NM=0, TP_HI=0, SP_HI=0), timeout=3000,
@@ -24,19 +32,23 @@ BOUNDS = {
     'quick': 'tsk_treeseq_general_stat, state_dim = output_dim = 1, identity summary function, weights = indicator of two sample '
              'sets (all samples / all but the first), branch / node / site mode, polarised on/off, span_normalise off, windows [0,L] and [0,b,L] '
              'with b a solver variable; every valid 3-node 2-edge tree sequence class (branch and node mode, 2 sample profiles), and the fixed 5-tree table '
-             'with one site at a symbolic position and 2 mutations (alleles "A" or "C" over ancestral "AT"; all three modes)',
-    'thorough': 'plus site mode on all 3-node classes and branch/node mode on 4-node 3-edge classes (time-boxed)',
+             'with one site at a symbolic position and 2 mutations (alleles "A" or "C" over ancestral "AT"; all three modes).  tsk_treeseq_allele_frequency_spectrum: '
+             'branch and site mode, polarised and folded, sample sets {all}, {all but the first}, {first}+{rest} (joint spectrum), windows [0,b,L]; '
+             'the same fixed table with its site and 2 mutations, and every 3-node 2-edge class (branch mode, 2 sample profiles)',
+    'thorough': 'plus AFS site mode on all 3-node classes, AFS branch mode on 4-node 3-edge classes, general_stat site mode on all 3-node classes and branch/node mode on 4-node 3-edge classes (time-boxed)',
 }
-OUTSIDE = ['every statistic that divides or uses non-integer weights: span_normalise=True, diversity, Fst, Tajimas_D, f-statistics, '
+OUTSIDE = ['every statistic that divides or uses non-integer weights other than the folded AFS half-weights: span_normalise=True, diversity, Fst, Tajimas_D, f-statistics, '
            'LD, relatedness, divergence matrix, coalescence counts ... (floating point is their subject)',
            'worker threads / num_threads (no concurrency in the engine)', 'Python argument shaping (numpy)',
            'windows given as "trees"/"sites"', 'summary functions other than the identity']
 ASSUMPTIONS = ['all intermediates are integer-valued doubles, encoded exactly as integers (a path that leaves this regime would end as '
-               'inconclusive; none does)', 'node mode: every node of the tree sequence contributes in every tree (docs/stats.md)']
+               'inconclusive; none does); the folded site AFS adds concrete halves',
+               'folded AFS is specified by its defining properties (mirror-image cell pairs hold the unfolded mass, upper half empty, a pair never split), not by the tie-break order', 'node mode: every node of the tree sequence contributes in every tree (docs/stats.md)']
 MANIFEST = dict(
     text='NARROW claim: in the regime where every intermediate of the general statistic framework is an integer-valued double, '
          'the real tsk_treeseq_general_stat (branch, node and site mode, polarised or not) equals the documented definition '
-         'evaluated naively per window and is additive over a symbolic window refinement, for all values within the bounds.  '
+         'evaluated naively per window and is additive over a symbolic window refinement, for all values within the bounds; '
+         'the real tsk_treeseq_allele_frequency_spectrum (branch/site, polarised/folded, one set or the joint spectrum of two) equals the docs/stats.md definition per window.  '
          'Normalised statistics, the named statistics built on non-trivial summary functions and thread schedules are NOT covered.',
-    note='Only the incremental state propagation, window accounting and allele weighting of the general framework; see outside_claim.',
+    note='Only the incremental state propagation, window accounting and allele weighting of the general framework and of the AFS; see outside_claim.',
     technique='symbolic execution of LLVM IR + SMT (z3) with exact integer-backed doubles, bounded, differential against the definition')
